@@ -157,6 +157,23 @@ def run_case(case, acc):
                 acc.violation(f"C08:std:{scen}", case, f"{tag}: sq_{m}_std={obs['std_' + m]!r} but empty_list_std is {std}")
                 ok = False
         acc.outcome(tuple(repr(obs["sq_" + m]) for m in METS), repr(obs["std_IOU"]))
+        # history A, B, A: a second, differently configured handler / evaluator is built and used; the first evaluator must still
+        # report its own handler's values (handlers must not share their tables)
+        if case["dim"] == 1:
+            j = (i + 313) % 625
+            hc2 = handler_cfg(j, STDS[(STDS.index(std) + 2) % len(STDS)])
+            acc.step(2)
+            try:
+                ev2 = make_evaluator(itype, matcher=matcher, backend="default" if itype == "SEMANTIC" else "none", decision=decision, handler=hc2)
+                ev2.evaluate(pred.copy(), ref.copy(), verbose=False)
+                obs2 = observe(ev.evaluate(pred.copy(), ref.copy(), verbose=False)["ungrouped"][0], metrics=METS, with_global=False)
+                d = same_obs(obs, obs2)
+                if d:
+                    acc.violation(f"C08:first_evaluator_changed_by_second_handler", {**case, "second_handler": j}, f"{tag}: after an evaluator with handler#{j} was built and used, the first evaluator reports different values in {d} (e.g. sq_{METS[0]}={obs2['sq_' + METS[0]]!r}, first call {obs['sq_' + METS[0]]!r})")
+                    ok = False
+            except Exception as e:
+                acc.violation(f"C08:raised_in_history:{type(e).__name__}", {**case, "second_handler": j}, f"{tag}: A, B, A history raised {e!r}")
+                ok = False
         if ok:
             acc.ok()
         return
